@@ -10,7 +10,7 @@ from .state import SV, Unsupported, sv_int, sv_bool, sv_str, SV_NONE, TypeSpec, 
 from .base import Outcome
 from .execu import ann_to_type
 
-PURE_BUILTINS = {"len", "isinstance", "bool", "int", "str", "min", "max", "hash", "abs", "any", "all", "tuple", "list", "type", "id", "repr", "sorted", "callable", "set", "dict", "sum", "getattr", "print", "i64", "iter", "next"}
+PURE_BUILTINS = {"ord", "chr", "len", "isinstance", "bool", "int", "str", "min", "max", "hash", "abs", "any", "all", "tuple", "list", "type", "id", "repr", "sorted", "callable", "set", "dict", "sum", "getattr", "print", "i64", "iter", "next"}
 
 
 class CallMixin:
@@ -586,6 +586,12 @@ class CallMixin:
             return k(st, sv_int(Val.r(pos[0].t)))
         if name == "print":
             return k(st, SV_NONE)
+        if name == "ord" and len(pos) == 1:
+            f = self.get_uf("py_ord", [Val], IntS)
+            return k(st, sv_int(f(pos[0].t)))
+        if name == "chr" and len(pos) == 1:
+            f = self.get_uf("py_chr", [Val], smt.StrS)
+            return k(st, SV(smt.mk_str(f(pos[0].t)), "str"))
         if name in ("tuple", "list") :
             return self.construct(st, tuple if name == "tuple" else list, pos, kws, node, name, k)
         if name == "sorted":
@@ -608,6 +614,16 @@ class CallMixin:
     # ------------------------------------------------------------------ builtin methods
     def builtin_method(self, st, base, m, pos, kws, node, k):
         ty = base.ty
+        if ty == "unknown-container":
+            r = Val.r(base.t)
+            self.check_write(st, r, "$items", node, "mutation of a container of unknown kind is allowed by modifies")
+            self.check_write(st, r, "$dhas", node, "mutation of a container of unknown kind is allowed by modifies")
+            for f in ("$items", "$len", "$dhas", "$dval"):
+                arr = st.H(f)
+                st.setH(f, z3.Store(arr, r, smt.fresh("hv." + f.strip("$"), arr.sort().range())))
+                self.written.add(f)
+            self.note("mutator call on a container of statically unknown kind: contents havocked, result unknown")
+            return k(st, SV(smt.fresh("mutret")))
         if ty == "str":
             s = Val.s(base.t)
             if m in ("upper", "lower", "strip", "lstrip", "rstrip", "casefold", "title") and not pos:
